@@ -556,7 +556,8 @@ def step (ops : HeapOps H) (s0 : St H) : Outcome (St H × Bool) := do
     let (v, st) ← s.stack.pop
     let vec := ops.deref s.heap v
     let h ← ops.vectorPush s.heap vec s.acc
-    .ok ({ s with heap := h, stack := st, acc := vec }, false)
+    -- `%acc` keeps the popped cell (the reference), not the dereferenced vector (fix 43d0413)
+    .ok ({ s with heap := h, stack := st, acc := v }, false)
   | .closureAcc => do
     let lam ← asPtr s.acc
     let (h, c) ← ops.makeClosure s.heap lam s.ep s.bp s.stack
